@@ -21,7 +21,7 @@ class NotConstant(Exception):
 
 _BUILTINS = {
     "frozenset": frozenset, "set": set, "tuple": tuple, "list": list, "dict": dict,
-    "sorted": sorted, "len": len, "ord": ord, "chr": chr, "str": str, "int": int,
+    "sorted": sorted, "len": len, "ord": ord, "chr": chr, "hex": hex, "str": str, "int": int,
     "range": range, "reversed": lambda x: list(reversed(x)), "zip": lambda *a: list(zip(*a)),
     "enumerate": lambda x: list(enumerate(x)), "min": min, "max": max, "bool": bool,
     "True": True, "False": False, "None": None, "unichr": chr, "text_type": str,
